@@ -33,6 +33,9 @@ func init() {
 			{"C14.R14", "q", "split dump discipline (needDump, file before buffer release, id bookkeeping)", c14r14},
 			{"C14.R15", "q", "sort/heap interface methods of the dump sorter and the merge heap", c14r15},
 			{"C14.R16", "q", "flattened sparse index = every filled slot", c14r16},
+			{"C14.R17", "q", "collision table compare-and-set is one critical section", c14r17},
+			{"C14.R18", "q", "hint lookup closes its reader on every path", c14r18},
+			{"C13.R12", "q", "shared: collision table replacement rule", c13r12},
 		},
 	})
 }
